@@ -24,7 +24,9 @@ impl Heap {
         // free list: in range, distinct, and exactly the cells in state Free
         &&& forall|i: int| 0 <= i < self.free_cells().len() ==> (#[trigger] self.free_cells()[i]) < self.len() && self.state(self.free_cells()[i] as int) == 0
         &&& self.free_cells().no_duplicates()
-        &&& forall|p: int| 0 <= p < self.len() && self.state(p) == 0 ==> self.free_cells().contains(p as usize)
+        &&& forall|p: int| 0 <= p < self.len() && #[trigger] self.state(p) == 0 ==> self.free_cells().contains(p as usize)
+        // a free cell holds no stale value (so a cell handed out by alloc never carries an old symbol)
+        &&& forall|p: int| 0 <= p < self.len() && self.state(p) == 0 ==> (#[trigger] self.cells()[p]) == VCell::Undefined
         // intern table: every entry points at a live cell holding that very symbol
         &&& forall|name: String| #[trigger] self.table().contains_key(name) ==> self.interned_at(name, self.table()[name] as int)
         // ... and every live symbol cell is the table's entry for its name (so a name has one live cell)
@@ -164,6 +166,29 @@ FREE_END = '''proof {
     }
 }'''
 
+ALLOC_PROOF = '''proof {
+    let old_fl = old(self).free_cells();
+    let n = old_fl.len() as int;
+    assert(self.free_cells() == old_fl.drop_last());
+    assert(ptr == old_fl[n - 1]);
+    assert forall|i: int| 0 <= i < self.free_cells().len() implies (#[trigger] self.free_cells()[i]) < self.len() && self.state(self.free_cells()[i] as int) == 0 by {
+        assert(old_fl[i] != old_fl[n - 1]);
+    }
+    assert forall|p: int| 0 <= p < self.len() && self.state(p) == 0 implies self.free_cells().contains(p as usize) by {
+        assert(old(self).state(p) == 0);
+        assert(old_fl.contains(p as usize));
+        let i = choose|i: int| 0 <= i < n && old_fl[i] == p as usize;
+        assert(i != n - 1);
+        assert(self.free_cells()[i] == p as usize);
+    }
+    assert forall|name: String| #[trigger] self.table().contains_key(name) implies self.interned_at(name, self.table()[name] as int) by {
+        assert(old(self).interned_at(name, old(self).table()[name] as int));
+    }
+    assert forall|p: int| 0 <= p < self.len() && self.state(p) != 0 implies self.symbol_cell_interned(p) by {
+        if p != ptr { assert(old(self).symbol_cell_interned(p)); }
+    }
+}'''
+
 UNITS = [{
     'name': 'heap',
     'file': 'src/vm/heap.rs',
@@ -172,6 +197,48 @@ UNITS = [{
     'uses_types': ['VCell', 'Cell', 'Continuation', 'Lambda'],
     'prelude': PRELUDE,
     'fns': {
+        # f64 arithmetic in the growth policy: contract assumed (Kani-bounded harness heap_grow spot-checks it)
+        'impl Heap::grow': {
+            'props': H, 'trusted': True,
+            'requires': ['old(self).wf()'],
+            'ensures': [
+                (H, 'final(self).wf() && final(self).len() > old(self).len() && final(self).table() == old(self).table() && final(self).chunk() == old(self).chunk()'),
+                (H, 'forall|p: int| 0 <= p < old(self).len() ==> final(self).state(p) == old(self).state(p) && final(self).cells()[p] == old(self).cells()[p]'),
+                (H, 'forall|p: int| old(self).len() <= p < final(self).len() ==> final(self).state(p) == 0'),
+            ],
+        },
+        'impl Heap::alloc': {
+            'props': HS + ['C06'],
+            'requires': ['old(self).wf()'],
+            'ensures': [
+                (HS, 'final(self).wf() && final(self).len() >= old(self).len() && final(self).table() == old(self).table()'),
+                # the cell handed out was free (never an allocated one) and is now allocated; nothing else changes
+                (H, 'r < final(self).len() && (r < old(self).len() ==> old(self).state(r as int) == 0) && final(self).state(r as int) == 1'),
+                (H, 'forall|p: int| 0 <= p < old(self).len() && p != r ==> final(self).state(p) == old(self).state(p)'),
+                (H, 'forall|p: int| 0 <= p < old(self).len() ==> final(self).cells()[p] == old(self).cells()[p]'),
+                (H, 'forall|p: int| old(self).len() <= p < final(self).len() && p != r ==> final(self).state(p) == 0'),
+            ],
+            'decreases': '(if old(self).free_cells().len() == 0 { 1int } else { 0int })',
+            'inserts': [
+                {'anchor': 'self.grow();', 'where': 'before', 'text': '''proof {
+                    assert(self.free_cells() == old(self).free_cells());
+                    assert(self.cells() == old(self).cells() && self.gcmap() == old(self).gcmap() && self.table() == old(self).table() && self.chunk() == old(self).chunk());
+                    assert forall|name: String| #[trigger] self.table().contains_key(name) implies self.interned_at(name, self.table()[name] as int) by {
+                        assert(old(self).interned_at(name, old(self).table()[name] as int));
+                    }
+                    assert forall|p: int| 0 <= p < self.len() && self.state(p) != 0 implies self.symbol_cell_interned(p) by { assert(old(self).symbol_cell_interned(p)); }
+                    assert forall|p: int| 0 <= p < self.len() && self.state(p) == 0 implies self.free_cells().contains(p as usize) by { assert(old(self).state(p) == 0); assert(old(self).free_cells().contains(p as usize)); }
+                    assert(self.wf());
+                }'''},
+                {'anchor': 'self.grow();', 'where': 'after', 'text': '''proof {
+                    // the grown heap has a free cell, so the recursive call pops one
+                    let q = old(self).len();
+                    assert(self.state(q) == 0);
+                    assert(self.free_cells().contains(q as usize));
+                }'''},
+                {'anchor': 'self.heap_map.set(ptr, State::Allocated);', 'where': 'after', 'text': ALLOC_PROOF},
+            ],
+        },
         'impl Heap::sweep': {
             'props': HS + ['C06'],
             'requires': ['old(self).wf()'],
